@@ -149,7 +149,7 @@ func suiteV18(c *vctx) {
 		{
 			g := &gate{ev: make(chan gateEv), release: make(chan bool)}
 			for id, h := range st.dir.Params {
-				st.dir.Params[id] = &gateHasher{inner: h, set: id, g: g}
+				st.dir.Params[id] = &gateHasher{Hasher: h, set: id, g: g}
 			}
 			type fl struct {
 				name string
